@@ -10,7 +10,6 @@ independent seeds); (4) every cell with expected count >= 50 is hit.
 
 from __future__ import annotations
 
-import math
 import random
 
 import numpy as np
@@ -246,17 +245,25 @@ def judge_continuous(case, cx, cell, hf, R, rtype, oa, ob, band):
     out = cx.out
     if rtype == "EmptyRegion":
         try:
-            cells.composed_partition(case["op"], oa, ob)
+            _, meas = cells.composed_partition(case["op"], oa, ob)
         except cells.Unsupported:
             out.cls("empty-composition")
             return out
-        cx.fail(f"{cell}|empty-but-positive-measure", result=rtype)
+        ref = min(m for m in (oa.measure(), ob.measure()) if np.isfinite(m))
+        if meas.sum() <= 1e-4 * ref:
+            out.cls("empty-composition")  # (or a sliver: merely touching operands are not judged)
+            return out
+        cx.fail(f"{cell}|empty-but-positive-measure", result=rtype, measure=float(meas.sum()))
         return out
     try:
         assign, meas = cells.primitive_partition(oa) if ob is None else \
             cells.composed_partition(case["op"], oa, ob)
     except cells.Unsupported as e:
         out.cls("empty-composition" if str(e) == "empty" else "no-partition")
+        return out
+    finite = [m for m in ([oa.measure()] + ([ob.measure()] if ob is not None else [])) if np.isfinite(m)]
+    if meas.sum() <= 1e-4 * min(finite + [np.inf]):
+        out.cls("sliver-composition")  # merely touching operands: not judged
         return out
     slow = rtype in ("MeshVolumeRegion", "BoxRegion", "SpheroidRegion") or \
         (rtype in base.GENERIC and any(s and s["kind"] in SLOW for s in (case["A"], case["B"])))
@@ -382,7 +389,7 @@ def replay(case):
 
 def plan(tier, seed, jobs):
     reps = 2 if tier == "quick" else 12
-    n_fast, n_slow = (20000, 2500) if tier == "quick" else (60000, 10000)
+    n_fast, n_slow = (60000, 2500) if tier == "quick" else (150000, 10000)
     jobs = max(1, jobs)
     return [{"seed": seed, "reps": reps, "n_fast": n_fast, "n_slow": n_slow, "k": k, "of": jobs}
             for k in range(jobs)]
